@@ -56,6 +56,7 @@ class Graph:
         self.atoms = []
         self.bonds = {}       # (i, j) with i < j  ->  order
         self.dots = 0
+        self.dir_conflict = False
 
     def add_bond(self, i, j, order):
         if i == j:
@@ -163,6 +164,8 @@ class Parser:
             self.ring_zero = self.ring_zero or n == 0 or (c == '%' and n < 10)
             if n in self.rings:
                 b, bsym = self.rings.pop(n)
+                if bsym in ('/', '\\') and sym == bsym:
+                    self.g.dir_conflict = True   # X/1 ... Y/1 : the two ends contradict each other
                 s1 = bsym if bsym not in ('/', '\\') else None
                 s2 = sym if sym not in ('/', '\\') else None
                 if bsym in ('/', '\\') and sym not in (None, '/', '\\', '-'):
